@@ -270,8 +270,8 @@ theorem max_of_ints_is_member (t : TV) (ts : List TV) (hts : ∀ u ∈ t :: ts, 
 /-! ### percentiles -/
 
 /-- The non-interpolated percentile index is always inside the sorted array. -/
-theorem percentile_index_in_range (p n : Nat) (h : 0 < n) : percentileIndex p n < n := by
-  unfold percentileIndex
+theorem percentile_index_in_range (pb n : Nat) (h : 0 < n) : percentileIndexB pb n < n := by
+  unfold percentileIndexB
   simp only
   split <;> split <;> omega
 
@@ -309,18 +309,18 @@ theorem sort_fold (ts acc : List TV) :
 
 /-- Sorting for percentiles neither loses nor invents values, and the percentile of a non-empty
 group is one of the group's own values (non-interpolated percentiles never synthesise a number). -/
-theorem percentile_is_a_member (p : Nat) (t : TV) (ts : List TV) :
-    (sortTVs (t :: ts)).length = (t :: ts).length ∧ percentileOf p (t :: ts) ∈ t :: ts := by
+theorem percentile_is_a_member (pb : Nat) (t : TV) (ts : List TV) :
+    (sortTVs (t :: ts)).length = (t :: ts).length ∧ percentileOfB pb (t :: ts) ∈ t :: ts := by
   have hs := sort_fold (t :: ts) []
   have hlen : (sortTVs (t :: ts)).length = (t :: ts).length := by simpa [sortTVs] using hs.1
   refine ⟨hlen, ?_⟩
-  unfold percentileOf
+  unfold percentileOfB
   simp only [List.isEmpty_cons, Bool.false_eq_true, if_false]
-  have hidx : percentileIndex p (t :: ts).length < (sortTVs (t :: ts)).length := by
-    rw [hlen]; exact percentile_index_in_range p (t :: ts).length (by simp)
+  have hidx : percentileIndexB pb (t :: ts).length < (sortTVs (t :: ts)).length := by
+    rw [hlen]; exact percentile_index_in_range pb (t :: ts).length (by simp)
   rw [List.getD_eq_getElem?_getD, List.getElem?_eq_getElem hidx]
   simp only [Option.getD_some]
-  have hm : (sortTVs (t :: ts))[percentileIndex p (t :: ts).length] ∈ sortTVs (t :: ts) := List.getElem_mem hidx
+  have hm : (sortTVs (t :: ts))[percentileIndexB pb (t :: ts).length] ∈ sortTVs (t :: ts) := List.getElem_mem hidx
   have := (hs.2 _).mp hm
   simpa using this
 
